@@ -535,12 +535,49 @@ func TestVfC01UpstreamReplies(t *testing.T) {
 				}()
 			}
 		}
+		// ... and replies that decode but have an unusual shape (built from the query, so ID and QR are right): a bare
+		// header, answers without a question, two questions. Whatever the proxy makes of them (the statement leaves the
+		// rcode open), it must survive and answer the client once, well-formedly.
+		for ki, kind := range kinds {
+			for _, shape := range []string{"bare-header", "answers-without-question", "two-questions"} {
+				ki, kind, shape := ki, kind, shape
+				label := fmt.Sprintf("s%dk%dp%d", len(shape), ki, os.Getpid())
+				scripts.Store(label, func(q *UpQuery) UpAction {
+					m := KeyedAnswer(q.Msg, "shape", 1, 60, 0)
+					switch shape {
+					case "bare-header":
+						m.Q, m.An = nil, nil
+					case "answers-without-question":
+						m.Q = nil
+					case "two-questions":
+						m.Q = append(m.Q, m.Q[0])
+					}
+					return UpAction{Reply: EncodeMsg(m)}
+				})
+				wg.Add(1)
+				go func() {
+					defer wg.Done()
+					defer scripts.Delete(label)
+					a := NewAsker(block+"10", "")
+					defer a.Close()
+					res := a.Ask("tcp", Query(uint16(2000+ki*16+len(shape)), vfkit.Name{[]byte(label), []byte("k" + itoa(ki)), []byte("test")}, 1, 1, false), 9*time.Second, 0)
+					if len(res.Resps) != 1 || !res.Resps[0].Msg.Clean() {
+						mu.Lock()
+						bad = append(bad, fmt.Sprintf("upstream %s reply of shape %s: %d responses", kind, shape, len(res.Resps)))
+						mu.Unlock()
+					}
+					st.Case(vfkit.Fingerprint(kind, "shape-sweep", shape), true, []string{"upstream=" + kind, "variant=shape-sweep"}, func() any {
+						return map[string]any{"upstream": kind, "variant": "shape-sweep", "shape": shape}
+					})
+				}()
+			}
+		}
 		wg.Wait()
 		if p.Exited() || p.Crashed() != "" {
-			t.Fatalf("the proxy died during the boundary tier (upstream replies of 0..11 octets)\n%s", tail(p.Stderr(), 3000))
+			t.Fatalf("the proxy died during the boundary tier (upstream replies of 0..11 octets, and decodable replies of unusual shape)\n%s", tail(p.Stderr(), 3000))
 		}
 		if len(bad) > 0 {
-			t.Fatalf("boundary tier: no single clean SERVFAIL after %v", bad)
+			t.Fatalf("boundary tier: no single clean response (SERVFAIL for the tiny replies) after %v", bad)
 		}
 	}
 	seq := 0
